@@ -237,6 +237,62 @@ class Obj(Type):
         return out
 
 
+class ObjSeq(Type):
+    """Tuple/list of symbolic length whose elements are heap objects of class `cls`; field f of element
+    i is the uninterpreted function value F_f(i).  `methods` maps a method name to a python callable
+    (I, obj, *args) (a model of the dynamically dispatched method, stated in the contract file)."""
+
+    _n = 0
+
+    def __init__(self, cls, fields, methods=None, kind="tuple", maxlen=None):
+        self.cls, self.fields, self.methods, self.kind, self.maxlen = cls, fields, methods or {}, kind, maxlen
+
+    def fresh(self, eng, name, I=None):
+        from .interp import BuiltinFn
+
+        cls = self.cls
+        if isinstance(cls, str) and ":" in cls:
+            mod, nm = cls.split(":")
+            cls = ClassVal.get(mod, extract.get_module(mod).top[nm])
+        n = eng.fresh_int(name + ".len")
+        eng.assume(compare(">=", n, 0))
+        if self.maxlen is not None:
+            eng.assume(compare("<=", n, self.maxlen))
+        base = eng.fresh_name(name)
+        funs = {}
+        consts = {}
+        for f, t in self.fields.items():
+            if t not in ("bool", "int", "real"):
+                consts[f] = t
+                continue
+            sort = {"bool": z3.BoolSort(), "int": z3.IntSort(), "real": z3.RealSort()}[t]
+            funs[f] = z3.Function(f"{base}.{f}", z3.IntSort(), sort)
+        methods = self.methods
+
+        def elem(i):
+            zi = tonum(i)
+            o = PObj(cls, tag=f"{base}[{zi}]")
+            for f, fn in funs.items():
+                o.fields[f] = SV(fn(zi), self.fields[f] == "real")
+            o.ident = (base, i if isinstance(i, (int, SV)) else SV(zi))
+            for f, cv in consts.items():
+                o.fields[f] = cv(o) if callable(cv) else cv
+            for mname, m in methods.items():
+                o.fields[mname] = BuiltinFn(mname, lambda *a, m=m, o=o, **k: m(I, o, *a, **k))
+            return o
+
+        seq = SSeq(n, elem, self.kind, base)
+        seq.funs = funs
+        return seq
+
+    def concretize(self, eng, model, val):
+        n = min(int(eng.eval_model(model, val.length)), 64)
+        out = []
+        for i in range(n):
+            out.append({f: eng.eval_model(model, SV(fn(z3.IntVal(i)))) for f, fn in val.funs.items()})
+        return out
+
+
 class Ghost(Type):
     """Arbitrary python factory `fn(eng, name, I) -> value` with optional concretizer."""
 
